@@ -24,6 +24,7 @@ from vf.sstr import SymStr, lit, var
 
 ME = "jasm.jasm_regex.macro_expander.macro_expander.MacroExpander"
 P13, P19 = ["C13"], ["C19"]
+P13_19_17 = ["C13", "C19", "C17"]
 
 
 class Opaque:
@@ -524,7 +525,7 @@ def sources():
                 o_lf = Y.load_file
                 o_me = J.y2r.MacroExpander
 
-                class ME2:
+                class ME2(o_me):      # the real class with ONE method under contract: its static helpers stay callable
                     def resolve_all_macros(self, macros, pattern_tree):
                         calls.append((macros, pattern_tree))
                         return "EXPANDED"
@@ -593,6 +594,46 @@ def sources():
                 obs.append(simple_ob(base + ":POST", func, "POST",
                                      "the expander receives macros = (macros of the extra files, in file order) ++ (macros of the rule file) and the pattern wrapped in $and; its result is returned",
                                      ok, P13, detail=repr(ml)[:200], witness=repr(ml)[:80]))
+    # the same postcondition on CONCRETE patterns at the edges: whether the expander runs depends on the macro definitions alone, never
+    # on what the pattern looks like -- references embedded in longer texts, no reference at all (the expander also validates the
+    # definitions' names), a reference as a key only
+    for pid, pat in (("embedded", ["%e@r", {"mov": ["(@r)", "%rax"]}]), ("noref", ["push", {"mov": ["%rsp", "%rbp"]}]),
+                     ("key-only", [{"@own": {"times": 2}}]), ("deep", [{"$or": ["nop", {"$and": [{"mov": ["x@ry"]}]}]}])):
+        for src in ("own", "file"):
+            calls2: List[Any] = []
+
+            def fn2(pat=pat, src=src):
+                calls2.clear()
+                Y = J.y2r.Yaml2Regex
+                y = Y.__new__(Y)
+                pat_c = copy.deepcopy(pat)
+                y.loaded_file = {"pattern": pat_c, "macros": [{"name": "@own", "pattern": "p"}]} if src == "own" else {"pattern": pat_c}
+                y.macros_from_terminal_filepath = None if src == "own" else ["lib.yaml"]
+                o_lf, o_me = Y.load_file, J.y2r.MacroExpander
+
+                class ME3(o_me):
+                    def resolve_all_macros(self, macros, pattern_tree):
+                        calls2.append((macros, pattern_tree))
+                        return "EXPANDED"
+                Y.load_file = staticmethod(lambda file: {"macros": [{"name": "@r", "pattern": "ax"}]})
+                J.y2r.MacroExpander = ME3
+                try:
+                    return [y._get_pattern(), list(calls2), pat_c]
+                finally:
+                    Y.load_file, J.y2r.MacroExpander = o_lf, o_me
+            try:
+                r2 = sym_run(fn2)
+            except Unsupported as e:
+                obs.append(simple_ob(f"_get_pattern:concrete:{pid}:{src}:RUN", func, "RUN", "symbolic execution completes", None, P13_19_17, detail=f"unsupported: {e}"))
+                continue
+            for i, p in enumerate(r2.paths):
+                ok = p.kind == "ret" and p.value[0] == "EXPANDED" and len(p.value[1]) == 1 and isinstance(p.value[1][0][1], dict) \
+                    and list(p.value[1][0][1].keys()) == ["$and"] and p.value[1][0][1]["$and"] == pat \
+                    and [m.get("name") for m in p.value[1][0][0]] == (["@own"] if src == "own" else ["@r"])
+                obs.append(simple_ob(f"_get_pattern:concrete:{pid}:{src}:p{i}:POST", func, "POST",
+                                     f"[{pid}, definitions from the {src}] with a macro definition present the expander receives the definitions and the whole "
+                                     "pattern under $and, whatever the pattern contains; its result is returned", ok, P13_19_17,
+                                     detail=repr(p.value)[:200], witness=repr(pat)))
     return obs
 
 
